@@ -230,6 +230,22 @@ pub fn check_stream(cfg: &SvcCfg, model: &StreamModel, obs: &StreamObs) -> Verdi
             let mut best = (0, 0);
             match_slots(&sl, &frames, 0, 0, &mut best);
             if best.1 == frames.len() {
+                // ... and what an upgraded handler processed is a prefix of what followed the upgrade
+                // request: in order, nothing twice, fault or no fault
+                if let (End::Upgraded { rest, .. }, Some(recd)) = (&alt.end, &obs.upgraded_record) {
+                    if !rest.starts_with(recd) {
+                        out.push(viol(
+                            "C02",
+                            "upgrade-handover",
+                            format!(
+                                "the upgraded handler processed {} bytes that are not a prefix of the {} bytes after the upgrade request: {:?}",
+                                recd.len(),
+                                rest.len(),
+                                String::from_utf8_lossy(&recd[..recd.len().min(160)])
+                            ),
+                        ));
+                    }
+                }
                 return Verdict {
                     violations: out,
                     matched_alt: Some(ai),
@@ -401,6 +417,27 @@ fn try_alt(
                     ));
                 }
                 break;
+            }
+        }
+        // "no such interface" said of an interface that is registered, on a stream that does not
+        // match the model: whatever else went wrong, the service interface is not telling the truth
+        for f in frames.iter() {
+            if f.get("error").and_then(|e| e.as_str()) == Some("org.varlink.service.InterfaceNotFound") {
+                if let Some(name) = f.get("parameters").and_then(|p| p.get("interface")).and_then(|i| i.as_str()) {
+                    let registered = name == crate::model::SVC
+                        || cfg.scripted.iter().any(|n| n == name)
+                        || (cfg.ping && name == crate::model::PING)
+                        || (cfg.more && name == crate::model::MORE);
+                    let predicted = sl.iter().any(|s| matches!(s, Slot::Req(i) if i.reply.matches(f)));
+                    if registered && !predicted {
+                        out.push(viol(
+                            "C03",
+                            "interface-not-found-for-registered-interface",
+                            format!("the service wrote {} although an interface of that name is registered", short(f)),
+                        ));
+                        break;
+                    }
+                }
             }
         }
         let (si, fi) = best;
@@ -677,6 +714,23 @@ fn try_alt(
                             "upgrade-aborted",
                             format!("connection ended ({}) after message #{} upgraded it", kind, at),
                         ));
+                    }
+                    // however it ended: what the handler processed is a prefix of what followed the
+                    // upgrade request - in order, nothing twice
+                    if let Some(recd) = &obs.upgraded_record {
+                        if !rest.starts_with(recd) {
+                            out.push(viol(
+                                "C02",
+                                "upgrade-handover",
+                                format!(
+                                    "connection ended ({}); the upgraded handler had processed {} bytes that are not a prefix of the {} bytes after the upgrade request: {:?}",
+                                    kind,
+                                    recd.len(),
+                                    rest.len(),
+                                    String::from_utf8_lossy(&recd[..recd.len().min(120)])
+                                ),
+                            ));
+                        }
                     }
                 }
                 ObsEnd::Open { tail, iface: oi } => {
